@@ -65,6 +65,11 @@ CHECKS = {
         text="All histories of SetKeyword/ClearKeyword/PutProperty/DelProperty/ToggleRequired/Validate up to length 2 (all) and 3 (validate;reconfigure;validate) plus simulated histories of length 7-10, on an element, a class and a subclass.",
         note="Fresh objects are rebuilt through the public DSL from the attribute projection.",
         ref="5/C13"),
+    "C11": dict(
+        technique="TLA+ state machine of orderer.py (get_children with identity-based seen, insertion-ordered dependency dict, CycleCheck/Pop/Finish) checked by TLC over all digraphs of object classes with every edge placed in rotating keyword positions / wrapper chains; safety invariants in every state and liveness under weak fairness; every terminal state replayed on real classes under a wall-clock timeout, drift adjudicated by TLC trace validation against R_C11",
+        text="TLC enumerates every digraph (self-loops included) on <=3 classes (quick) / <=4 classes (thorough) x root sequences (1-3 roots, duplicates) x placement variants (12 keyword positions + allOf, direct class keywords and Array/AnyOf/OneOf/AllOf/Not/Element wrappers up to two deep, same-position variants giving classes of identical shape); invariants: sound prefix, clean refusal, unreachable assertion, shrinking worklist; Terminates under WF without state constraint. Each exported heap is realised as real classes (assigned after creation; acyclic ones also declared with Object.inline) and list(orderer(*roots)) must equal the prediction or be accepted by R_C11 (any valid topological order; SchemaParseError iff the reachable class graph is cyclic; no hang/other exception). Seeded random heaps with 4-8 classes, shared wrappers, non-object roots and wrapper cycles are observed and all adjudicated by Trace_Orderer. Exhaustive over graph shapes within the bound; positions by rotation (every edge meets every position in thorough, n<=3), not every combination.",
+        note="Class names unique (orderer's stated assumption). A hang is observed as a 10 s + 20 s wall-clock timeout per call (normal call 3-10 ms). For 4 classes one graph-dependent rotation per labelled graph. Subclass/base-class ordering is outside C11.",
+        ref="5/C11"),
     "C14": dict(
         technique="TLA+ interleaving semantics of access programs (Threads.tla): programs generated from the bind protocol (BindProtocol.tla) and programs recorded from the real code by an access monitor; TLC exhaustive over all interleavings of 2-3 calls, candidates exported with their path (TLCExt!Trace) and replayed on real threads through a gate; sampled TLC schedules, pre-emption sweeps at every monitored access / library function entry, free-running threads; every differing observation adjudicated by TLC trace validation against R_C14",
         text="12 element trees (shared sub-elements and properties, model classes with renamed/required/pattern properties, arrays of objects, compositions over classes, container defaults, undeclared keys, formats) x 2-3 threads x accepted/rejected payloads incl. payloads sharing sub-objects, cold and warm trees: TLC explores every interleaving of the recorded access programs (projected on written locations) and of the abstract bind protocol; exhaustive within these bounds, real-thread replays sampled beyond (quick ~6 000, thorough ~90 000 runs). Each run includes a positive control that must be rejected.",
